@@ -236,7 +236,7 @@ pub fn def() -> PropDef {
             "allocation blow-ups are decided only up to the 3 GiB address-space cap per worker",
             "shipping build = cargo profile with opt-level 3, no overflow checks, no debug assertions, hooks off, same rustc",
         ],
-        spaces: vec![Space { name: "history", decode, plan: |t| Plan::Random(t.n(48_000, 2_000_000)) }],
+        spaces: vec![Space { name: "history", decode, plan: |t| Plan::Random(t.n(150_000, 3_000_000)) }],
         differential: true,
     }
 }
